@@ -133,12 +133,14 @@ def macro_control_flow(R):
     if dt is None:
         R.inst("R18.2", "anchor", False, "derive_trace_trait not found in rust_cc_derive", cfg="derive")
         return
-    S = Super(P, dt, opaque={"attr_contains", "get_meta_items"})
+    AC, GM = _recogniser_fns(F)
+    ACN = AC.npath if AC is not None else "attr_contains"
+    S = Super(P, dt, opaque={ACN} | ({GM.npath} if GM is not None else set()))
 
     def closure_const(env):
         """name of the constant a `|attr| attr_contains(attr, CONST)` closure passes."""
         v = tables.closure_value(S, env)
-        if v is not None and strip(v)[0] in ("ret", "call") and strip(v)[1] == "attr_contains":
+        if v is not None and strip(v)[0] in ("ret", "call") and strip(v)[1] == ACN:
             c = strip(strip(v)[2][1])
             return c[1] if c[0] == "const" else None
         return None
@@ -214,7 +216,14 @@ def macro_control_flow(R):
     # each(): one trace call per remaining binding
     each = [n for n in S.nodes if n.ci is not None and n.ci["k"] == "call" and n.ci["npath"] == "synstructure::Structure::<'a>::each"]
     R.inst("R18.2", "each-binding", len(each) == 1 and all(S.dominates(x, each[0], exclude=("ui", "u")) for x in flt + fv if x in flt), "Structure::each (one trace call per binding) is called once, after the field filter: %s" % (len(each) == 1), where=dt.span, cfg="derive")
+    recognisers(R, F, P)
     df = F.fn("derive_finalize_trait")
+    if df is not None:
+        Sb = Super(P, df, opaque=set())
+        ab = [n for n in Sb.call_nodes() if n.ci["k"] == "call" and n.ci["npath"] == "synstructure::Structure::<'a>::add_bounds"]
+        vals = [fmt(strip(Sb.args_of(n)[1])) for n in ab]
+        R.inst("R18.2", "derive-finalize-unconditional", len(ab) == 1 and all("AddBounds::None" in v for v in vals),
+               "derive(Finalize) calls add_bounds with %s (required AddBounds::None: the empty finalizer exists for every instantiation of a generic type)" % (vals or "nothing: synstructure's default adds one bound per type parameter"), where=df.span, cfg="derive")
     if df is not None:
         Sf = Super(P, df, opaque=set())
         g = [n for n in Sf.call_nodes() if n.ci["k"] == "call" and n.ci["npath"] == "synstructure::Structure::<'a>::gen_impl"]
@@ -225,6 +234,68 @@ def macro_control_flow(R):
                 if len(a) > 1 and strip(a[1])[0] == "const":
                     idents.add(str(strip(a[1])[1]).strip('"'))
         R.inst("R18.2", "derive-finalize-empty", len(g) == 1 and "fn" not in idents and "finalize" not in idents and "Finalize" in idents, "derive(Finalize) quotes %s: one gen_impl, no `fn`" % sorted(idents), where=df.span, cfg="derive")
+
+
+def _recogniser_fns(F):
+    """(attr_contains, get_meta_items) found by signature, whatever they are called."""
+    def sig(f):
+        return tuple(f.locals[i]["ty"] for i in range(1, f.arg_count + 1)), f.locals[0]["ty"]
+    top = [f for f in F.fns.values() if f.kind in ("fn", "Fn") and "{closure" not in f.npath]
+    ac = [f for f in top if sig(f) == (("&syn::Attribute", "&str"), "bool")]
+    gm = [f for f in top if sig(f) == (("&syn::Attribute",), "std::option::Option<&syn::MetaList>")]
+    return (ac[0] if len(ac) == 1 else None), (gm[0] if len(gm) == 1 else None)
+
+
+def recognisers(R, F, P):
+    """get_meta_items / attr_contains never refuse silently and never accept without a match (valid for every attribute)."""
+    ac, gm = _recogniser_fns(F)
+    if gm is None or ac is None:
+        R.inst("R18.2", "recognisers", False, "the attribute recognisers were not found in rust_cc_derive by signature: fn(&Attribute, &str) -> bool and fn(&Attribute) -> Option<&MetaList> (one of each)", cfg="derive")
+        return
+    EMIT = "proc_macro_error::Diagnostic::emit"
+    S = Super(P, gm, opaque=set())
+    bad = []
+    k = 0
+    for p in tables.normal_paths(S, limit=2000):
+        ours = None
+        for a, t in p.literals:
+            if a[0] == "bool" and "is_ident(" in fmt(a[1]) and '"rust_cc"' in fmt(a[1]):
+                ours = t
+        rv = fmt(strip(p.retval()))
+        emitted = bool(p.calls(EMIT))
+        k += 1
+        if ours is True:
+            if not (("Some" in rv and "attr.meta as List" in rv) or emitted):
+                bad.append("a #[rust_cc ...] attribute yields %s without any diagnostic on path [%s]" % (rv, p.describe()[:160]))
+        elif ours is False:
+            if "None" not in rv:
+                bad.append("a foreign attribute yields %s" % rv)
+        else:
+            bad.append("path without the `rust_cc` test: [%s]" % p.describe()[:160])
+    R.inst("R18.2", "get_meta_items-total", not bad and k >= 3, "%d paths: rust_cc attribute -> Some(its list) or an emitted error; other attributes -> None; %s" % (k, bad or "ok"), where=gm.span, cfg="derive")
+    S = Super(P, ac, opaque={gm.npath})
+    bad = []
+    k = t_paths = 0
+    for p in tables.normal_paths(S, limit=5000):
+        k += 1
+        rv = strip(p.retval())
+        found = False
+        for a, t in p.literals:
+            e = strip(a[1]) if a[0] == "bool" else None
+            if t is True and isinstance(e, tuple) and e and e[0] in ("call", "ret") and e[1] == "syn::Path::is_ident" and len(e[2]) > 1 and strip(e[2][1])[:2] == ("param", "ident"):
+                found = True
+        if rv == ("const", 1):
+            t_paths += 1
+            if not found:
+                bad.append("returns true without a matching identifier on path [%s]" % p.describe()[:160])
+        elif rv == ("const", 0):
+            if found:
+                bad.append("returns false although the identifier matched on path [%s]" % p.describe()[:160])
+        else:
+            bad.append("returns %s" % fmt(rv))
+    first = [n for n in S.call_nodes() if n.ci["k"] == "call" and n.ci["npath"] == gm.npath]
+    arg_ok = len(first) == 1 and strip(S.args_of(first[0])[0]) == ("param", "attr", 1)
+    R.inst("R18.2", "attr_contains-exact", not bad and t_paths >= 1 and arg_ok, "%d paths (%d returning true): true iff a Meta::Path equal to `ident` was found in get_meta_items(attr): %s" % (k, t_paths, bad or "ok"), where=ac.span, cfg="derive")
 
 
 # ---- R18.3 ------------------------------------------------------------------------------------------------------------
